@@ -3,6 +3,8 @@ import BSEModel.Canon
 import BSEModel.Notation
 import BSEProofs.Props.C04
 import BSEGen.Formats
+import BSEModel.NwchemInst
+import BSEProofs.Lemmas.NwchemRT
 /-! # C03 — reading back what the library wrote never silently changes the basis
 
 What is proved: (1) the number tables survive print → read token for token (only the exponent marker
@@ -131,8 +133,91 @@ theorem write_read_formats :
 theorem readback_checker_sound {ν : Type} (val : ν → Rat) (a b : List (Shell ν)) (h : sameFuncs val a b = true) (f : Func) :
     funcSet val a f ↔ funcSet val b f := sameFuncs_sound val a b h f
 
+/-! ## (4) a whole section: the NWChem electron basis, written then read, is the same list of shells
+
+Token level (`BSEModel/Nwchem.lean`): a line is a *head* line (first character alphabetic) or a row of number tokens —
+the reader's own partition test.  The tables are the library's (`realTables`, regenerated from `lut.py`). -/
+
+open BSE.Nwchem BSE.Notation in
+/-- the element symbols the writer prints are read back to the same Z, and are alphabetic, for every Z of the table -/
+theorem nwchem_symbols_roundtrip {ν : Type} (isNum : ν → Bool) :
+    ∀ z ∈ List.range' 1 118, (realTables isNum).zOf ((realTables isNum).symOf z) = some z
+      ∧ isAlphaStr ((realTables isNum).symOf z) = true := by
+  have h : ∀ z ∈ List.range' 1 118, zFromSym ((symFromZNorm z).getD []) = some z
+      ∧ isAlphaStr ((symFromZNorm z).getD []) = true := by decide +kernel
+  exact h
+
+open BSE.Nwchem BSE.Notation in
+theorem nwchem_letter (l : Nat) (hl : l < 25) :
+    ∃ c, amChar false l = some c ∧ amInt false c.toUpper = some l ∧ c.toUpper.isAlpha = true := by
+  have h : ∀ l ∈ List.range 25, ∃ c, amChar false l = some c ∧ amInt false c.toUpper = some l ∧ c.toUpper.isAlpha = true := by
+    decide +kernel
+  exact h l (List.mem_range.2 hl)
+
+open BSE.Nwchem BSE.Notation in
+/-- the momentum letters the writer prints (upper case, hik) are read back to the same momenta, for every momentum
+list with `l < 25` — fused shells included -/
+theorem nwchem_am_roundtrip {ν : Type} (isNum : ν → Bool) (am : List Nat) (hne : am ≠ []) (hl : ∀ l ∈ am, l < 25) :
+    (realTables isNum).amOf ((realTables isNum).amStr am) = some am
+      ∧ isAlphaStr ((realTables isNum).amStr am) = true := by
+  show amOfReal ((am.filterMap (amChar false)).map Char.toUpper) = some am
+    ∧ isAlphaStr ((am.filterMap (amChar false)).map Char.toUpper) = true
+  have key : amOfReal ((am.filterMap (amChar false)).map Char.toUpper) = some am
+      ∧ ((am.filterMap (amChar false)).map Char.toUpper).all Char.isAlpha = true
+      ∧ ((am.filterMap (amChar false)).map Char.toUpper).length = am.length := by
+    clear hne
+    induction am with
+    | nil => simp [amOfReal]
+    | cons l ls ih =>
+      obtain ⟨c, hc, hi, ha⟩ := nwchem_letter l (hl l (by simp))
+      obtain ⟨h1, h2, h3⟩ := ih (fun l' hl' => hl l' (by simp [hl']))
+      simp only [List.filterMap_cons, hc, List.map_cons, amOfReal, hi, h1, List.all_cons, ha, h2, Bool.and_self,
+        List.length_cons, h3, and_self]
+  refine ⟨key.1, ?_⟩
+  unfold isAlphaStr
+  have : ((am.filterMap (amChar false)).map Char.toUpper).isEmpty = false := by
+    cases h0 : (am.filterMap (amChar false)).map Char.toUpper with
+    | nil =>
+      have := key.2.2
+      rw [h0] at this
+      exact absurd (List.eq_nil_of_length_eq_zero this.symm) hne
+    | cons _ _ => rfl
+  simp [this, key.2.1]
+
+open BSE.Nwchem in
+/-- **NWChem, electron section: read(write(elements)) = elements** — every element in order, every shell in order,
+momenta / exponents / coefficient columns token for token, function type recomputed from the momenta; for every list
+of elements with distinct Z in 1..118, non-empty shell lists and rectangular shells of number tokens with `l < 25` -/
+theorem nwchem_electron_roundtrip {ν : Type} (isNum : ν → Bool) (harm : List Char) (els : List (Nat × List (EShell ν)))
+    (hharm : harm = "SPHERICAL".toList ∨ harm = "CARTESIAN".toList)
+    (hnd : (els.map (·.1)).Nodup) (hne : ∀ e ∈ els, e.2 ≠ [])
+    (hz : ∀ e ∈ els, e.1 ∈ List.range' 1 118)
+    (hsh : ∀ e ∈ els, ∀ sh ∈ e.2, 0 < sh.exps.length ∧ sh.coefs ≠ [] ∧ Rect sh.exps.length sh.coefs
+        ∧ (∀ x ∈ sh.exps, isNum x = true) ∧ (∀ c ∈ sh.coefs, ∀ x ∈ c, isNum x = true)
+        ∧ sh.am ≠ [] ∧ (∀ l ∈ sh.am, l < 25) ∧ (sh.am.length > 1 → sh.coefs.length = sh.am.length)) :
+    readElectron (realTables isNum) (electronLines (realTables isNum) harm els)
+      = .ok (els.map fun e => (e.1, e.2.map (toR (realTables isNum) (harm == "SPHERICAL".toList)))) := by
+  apply readElectron_write (realTables isNum) harm els hharm hnd hne
+  · intro e he; exact nwchem_symbols_roundtrip isNum e.1 (hz e he)
+  · intro e he sh hs
+    obtain ⟨h1, h2, h3, h4, h5, h6, h7, h8⟩ := hsh e he sh hs
+    exact ⟨h1, h2, h3, ⟨h4, h5⟩, nwchem_am_roundtrip isNum sh.am h6 h7, h8⟩
+
 example : tokens (replaceD (convExp true (rowLine [(7, "1.5e+01".toList), (20, "-2.0E-01".toList)] [])))
     = ["1.5E+01".toList, "-2.0E-01".toList] := by decide +kernel
 example : isFloatTok "1.5E+01".toList = true ∧ isFloatTok "15".toList = false ∧ isFloatTok "-.5D-3".toList = true := by decide +kernel
+
+/-- non-vacuity: hydrogen with an s shell of two contractions and carbon with a fused sp shell -/
+def demoEls : List (Nat × List (BSE.Nwchem.EShell String)) :=
+  [(1, [{ am := [0], exps := ["3.0", "1.0"], coefs := [["0.1", "0.9"], ["0.0", "1.0"]] }]),
+   (6, [{ am := [0, 1], exps := ["2.0"], coefs := [["1.0"], ["1.0"]] }, { am := [2], exps := ["0.8"], coefs := [["1.0"]] }])]
+
+open BSE.Nwchem in
+example :
+    (readElectron (realTables (fun _ => true)) (electronLines (realTables (fun _ => true)) "SPHERICAL".toList demoEls)).toOption
+      = some [(1, [{ ftype := "gto".toList, am := [0], exps := ["3.0", "1.0"], coefs := [["0.1", "0.9"], ["0.0", "1.0"]] }]),
+              (6, [{ ftype := "gto".toList, am := [0, 1], exps := ["2.0"], coefs := [["1.0"], ["1.0"]] },
+                   { ftype := "gto_spherical".toList, am := [2], exps := ["0.8"], coefs := [["1.0"]] }])] := by
+  decide +kernel
 
 end BSE.Props.C03
